@@ -301,6 +301,30 @@ def r4_selection(ctx):
             good = (p == 1 and a == "old" and b == "cur") or (p == -1 and a == "cur" and b == "old")
             ctx.check(good, "C02.R4", f, st, "torch.where(mask-of-reverted, old, current): rejected rows get exactly their old value",
                       "selection has the old value on the KEPT side: reverted individuals keep the proposal and accepted ones lose it")
+        elif isinstance(v, ast.Call) and isinstance(v.func, ast.Attribute) and v.func.attr == "where" and len(v.args) == 2 and side(v.func.value) is not None:
+            # method form  a.where(mask, b)  ==  torch.where(mask, a, b) for plain tensors; a (possibly) WeightedTensor receiver dispatches to a
+            # method of the repository's own class, whose body decides whether this is a selection
+            p = polarity(v.args[0])
+            a, b = side(v.func.value), side(v.args[1])
+            wt = ctx.ix.find_class("WeightedTensor")
+            wm = ctx.ix.method(wt, "where") if wt is not None else None
+            if wm is not None:
+                blend = [x for x in ast.walk(wm.node) if isinstance(x, ast.BinOp) and isinstance(x.op, (ast.Mult, ast.Add, ast.Sub))]
+                sel = [x for x in ast.walk(wm.node) if isinstance(x, ast.Call) and U(x.func) in ("torch.where",) or (isinstance(x, ast.Call) and isinstance(x.func, ast.Attribute) and x.func.attr == "where"
+                                                                                                                  and U(x.func.value) not in ("self",))]
+                if blend:
+                    ctx.violation("C02.R4", wm, blend[0], f"`WeightedTensor.where` (used by the per-individual revert) blends arithmetically (`{U(blend[0])[:60]}`): a non-finite proposed value "
+                                  "gives NaN (inf*0) in the rows being reverted instead of their old value")
+                    continue
+                if not sel:
+                    ctx.unknown("C02.R4", wm, wm.node, "WeightedTensor.where is neither a torch.where selection nor an arithmetic blend")
+                    continue
+            if p is None or a is None or b is None or a == b:
+                ctx.unknown("C02.R4", f, st, f"cannot classify the operands of the selection: mask polarity {p}, operands {a}/{b}")
+                continue
+            good = (p == 1 and a == "old" and b == "cur") or (p == -1 and a == "cur" and b == "old")
+            ctx.check(good, "C02.R4", f, st, "a.where(mask-of-reverted, current) with a = old: rejected rows get exactly their old value",
+                      "selection has the old value on the KEPT side: reverted individuals keep the proposal and accepted ones lose it")
         elif any(isinstance(x, ast.BinOp) and isinstance(x.op, (ast.Mult, ast.Add)) for x in ast.walk(v)) and oldname in {
                 x.id for x in ast.walk(v) if isinstance(x, ast.Name)}:
             ctx.violation("C02.R4", f, st, "arithmetic blend old*mask + current*~mask: a non-finite proposed value gives NaN (inf*0) in the rows being "
